@@ -311,6 +311,21 @@ def gen_twins(rng):
     return s
 
 
+def gen_support_loads(rng):
+    """concentrated forces and moments applied exactly on supported bar ends (t = 0 of a bar that starts at a
+    support, t = 1 of one that ends there), besides ordinary loads: they reach the reactions directly"""
+    s = gen_portal(rng) if rng.random() < 0.5 else gen_beam(rng)
+    for b in s.bars:
+        for end, t in (("n1", Fr(0)), ("n2", Fr(1))):
+            c = s.nodes[b[end]][2]
+            if any(c):
+                for term in rng.sample(["fx", "fy", "mz"], 2):
+                    s.loads.append({"kind": "c", "term": term, "local": rng.random() < 0.5, "bar": b["id"], "t": t,
+                                    "v": Fr(rng.choice([-1, 1]) * rng.choice([250, 600, 1000]))})
+    s.meta = {"kind": "support-loads/" + s.meta.get("kind", "?")}
+    return s
+
+
 def gen_doubled_nodes(rng):
     """distinct nodes at the same coordinates (members that cross without being connected, a doubled
     node): each is its own set of unknowns"""
